@@ -77,8 +77,8 @@ def make_jobs(tier, seed, scale, avoid, unreachable):
             add("a64", fa + i, min(50, na64 - i))
         nl = int(300 * scale)
         fl = rng.below(1 << 30)
-        for i in range(0, nl, 50):
-            add("a64lists", fl + i, min(50, nl - i))
+        for i in range(0, nl, 25):
+            add("a64lists", fl + i, min(25, nl - i))
         add("x86lists", rng.below(1 << 30), int(60 * scale) or 1)
     else:
         nx64, chunk = int(120000 * scale), 500
